@@ -8,6 +8,10 @@ CFG = dict(
         "Inst.gen_ack_verified: the follower's match_index is within the prefix the request verified",
         "Inst.gen_commit_verified: the follower's commit index is monotone and within that prefix",
         "Inst.gen_stale_ok: AppendEntriesResponse from an earlier term is dropped",
+        "Inst.gen_vote_up_to_date: handle_request_vote's log_ok implies the candidate's log is at least as up to date",
+        "Inst.gen_prev_sound: handle_append_entries' prev-entry test accepts only a matching term",
+        "Inst.gen_pick_quorum: try_advance_commit_index picks a position a quorum of the match values reach",
+        "Inst.gen_commit_current_term: try_advance_commit_index commits only an entry of the current term",
     ],
     crate="nvh_c01",
     header=H + "From NV.C01 Require Import Model Run.\nOpen Scope N_scope.",
@@ -23,5 +27,5 @@ CFG = dict(
 )
 MANIFEST = dict(
     text="All four clauses of the statement are Coq theorems about the executable cluster model, for every cluster size, every schedule (deliveries in any order with duplication and loss, timeouts with and without pre-vote, proposals, heartbeats, refusal oracles, crash/restart) and for the quorum size, acknowledgement, follower-commit and stale-response rules regenerated from the source on every run: election safety (refinement to an abstract voting protocol + quorum intersection), log matching (ghost ledger of leader logs), leader completeness for quorum-acknowledged entries, and state-machine safety across time (C01_state_machine_safety: whatever one node reported committed up to k after a schedule is what any node holds and reports up to k after any continuation; C01_leader_holds_committed: every later leader holds it). The model is replayed against clusters of real WAL-backed RaftNodes on seeded and corpus schedules (every observation and every message must agree), and the four safety clauses are also evaluated as oracles on the implementation's own observations, including a corpus schedule that broke leader completeness before the ack-rule repair.",
-    note="Trusted: Coq kernel, rs2v.py + gen_C01.py (ack rule, follower-commit rule, stale-ack rule, quorum size), harness + driver, the read-only hook. Modelled, not verified: fixed membership, no snapshot/compaction, no leadership transfer; timing/float guards are refusal oracles.",
+    note="Trusted: Coq kernel, rs2v.py + gen_C01.py (ack rule, follower-commit rule, stale-ack rule, quorum size, vote up-to-date rule, prev-entry test, commit position and term guard), harness + driver, the read-only hook. Modelled, not verified: fixed membership, no snapshot/compaction, no leadership transfer; timing/float guards are refusal oracles.",
 )
